@@ -135,7 +135,7 @@ pub fn serve_stream<S: Peer>(s: &mut S, script: &[Step], greet: bool, switch_on_
 pub fn serve_stream_opt<S: Peer>(s: &mut S, script: &[Step], greet: bool, switch_on_starttls: bool, stall_at_end: bool, rec: &mut Record) -> Stop {
     let mut sending = true;
     let mut step = 0usize;
-    let mut send_step = |s: &mut S, i: usize, rec: &mut Record, sending: &mut bool| {
+    let send_step = |s: &mut S, i: usize, rec: &mut Record, sending: &mut bool| {
         if !*sending {
             return;
         }
